@@ -4,6 +4,7 @@ behalf of a record before its log bytes were synced; no log file is truncated/re
 the table changes it describes were flushed") as dominance / must-pass / confinement facts on MIR."""
 import core, lib
 from lib import *
+from props import shared
 
 LEVEL = 'proof'
 FLOOR = 24
@@ -52,34 +53,7 @@ def run(ctx):
     pp = sorted(set(b.path for b, _ in poppers))
     ctx.ob('1f read_queue-consumers', 'K4-confinement', ','.join(pp) or '-',
            'only Log::read_next takes files from Log.read_queue', pp == ['log::Log::read_next'], 'consumers: %s' % pp)
-    # LogReader only from read_next
-    mk = sorted(b.path for b in F.bodies.values()
-                if any(s['k'] == 'assign' and s['r']['k'] == 'agg' and s['r']['ak'] == 'Adt:log::LogReader' for blk in b.blocks for s in blk['s']))
-    ctx.ob('1g logreader-constructed-once', 'K4-confinement', ','.join(mk), 'LogReader values are built only in LogReader::new', mk == ['log::LogReader::<\'a>::new'], str(mk))
-    lib.callers_confined(ctx, '1h logreader-new-callers', F, ["log::LogReader::<'a>::new"], {'log::Log::read_next'},
-                         'LogReader::new is called only by Log::read_next', required=['log::Log::read_next'])
-    lib.callers_confined(ctx, '1i read_next-callers', F, ['log::Log::read_next'], {'db::DbInner::enact_logs'},
-                         'Log::read_next is called only by DbInner::enact_logs', required=['db::DbInner::enact_logs'])
-    # appliers reachable only from enact_logs
-    lib.callers_confined(ctx, '1j column-enact-callers', F, ['column::Column::enact_plan'], {'db::DbInner::enact_logs'},
-                         'Column::enact_plan is called only from DbInner::enact_logs', required=['db::DbInner::enact_logs'])
-    lib.callers_confined(ctx, '1k hash/btree-enact-callers', F, ['column::HashColumn::enact_plan', 'btree::BTreeTable::enact_plan'],
-                         {'column::Column::enact_plan'}, 'HashColumn/BTreeTable::enact_plan are called only from Column::enact_plan',
-                         required=['column::Column::enact_plan'])
-    lib.callers_confined(ctx, '1l table-enact-callers', F,
-                         ['table::ValueTable::enact_plan', 'index::IndexTable::enact_plan', 'ref_count::RefCountTable::enact_plan'],
-                         {'column::HashColumn::enact_plan', 'btree::BTreeTable::enact_plan', 'column::Column::enact_plan'},
-                         'table-level enact_plan functions are called only from the column appliers',
-                         required=['column::HashColumn::enact_plan', 'btree::BTreeTable::enact_plan'])
-    # who writes table bytes
-    lib.callers_confined(ctx, '1m table-write-primitive', F, ['file::TableFile::write_at'],
-                         {'table::ValueTable::enact_plan', 'table::ValueTable::do_init_with_entry'},
-                         'TableFile::write_at (raw mmap write) is called only by the value-table applier (and the creation-time btree header init)',
-                         required=['table::ValueTable::enact_plan'])
-    lib.callers_confined(ctx, '1n raw-mmap-writers', F, ['std::slice::from_raw_parts_mut', 'core::slice::from_raw_parts_mut'],
-                         {'file::TableFile::write_at', 'index::IndexTable::enact_plan', 'ref_count::RefCountTable::enact_plan'},
-                         'raw mutable views of a mapping are created only in the three appliers',
-                         required=['file::TableFile::write_at', 'index::IndexTable::enact_plan', 'ref_count::RefCountTable::enact_plan'])
+    shared.wal_confinement(ctx, '1w')
 
     # ---------------------------------------------------------------- 2. tables flushed before truncation
     cl_callers = sorted(F.direct_callers_of('log::Log::clean_logs'))
